@@ -154,6 +154,9 @@ pub axiom fn axiom_confined_has_name(file: Seq<char>, dir: Seq<char>)
     ensures path_confined(file, dir) && has_file_name(dir) ==> has_file_name(file);
 /// the final component of a path (meaningful when `has_file_name`)
 pub uninterp spec fn file_name_str(p: Seq<char>) -> Seq<char>;
+/// ASSUMPTION (lexical, about std::path): joining a directory with the final component of a path yields a path that has that final component
+pub axiom fn axiom_join_file_name(base: Seq<char>, p: Seq<char>)
+    ensures has_file_name(p) ==> has_file_name(join_str(base, file_name_str(p)));
 pub assume_specification[ std::path::Path::file_name ](p: &std::path::Path) -> (r: Option<&std::ffi::OsStr>)
     ensures r is Some <==> has_file_name(path_str(p)), r is Some ==> osstr_str(r->Some_0) == file_name_str(path_str(p));
 pub broadcast axiom fn axiom_asref_osstr(p: &std::ffi::OsStr)
@@ -171,6 +174,87 @@ pub broadcast axiom fn axiom_display_ref_socketaddr(x: &&std::net::SocketAddr, f
 /// ASSUMPTION: `thread::spawn` runs the closure once (its precondition must hold at the spawn); a panic inside stays inside the thread
 pub assume_specification<F: FnOnce() -> T + Send + 'static, T: Send + 'static>[ std::thread::spawn::<F, T> ](f: F) -> (r: std::thread::JoinHandle<T>)
     requires f.requires(());
+// ---- C14: the client side of one transfer -----------------------------------------------------------------------------
+/// RELY (C14 is about the bundled pair): the reply comes from the bundled server, whose OACK values are honourable - this is
+/// what the server's own contracts prove (C09, `server.parse_options`); nothing is assumed about other replies
+pub axiom fn axiom_peer_is_the_bundled_server(reply: Option<(PktV, std::net::SocketAddr)>)
+    ensures reply matches Some((PktV::Oack(o), _)) ==> opts_valid(o);
+
+/// the four options the client asks for
+pub open spec fn client_options(blk: usize, ws: u16, tmo: std::time::Duration, tsize: usize) -> Seq<TransferOption> {
+    seq![TransferOption { option: OptionType::BlockSize, value: blk }, TransferOption { option: OptionType::Windowsize, value: ws as usize },
+         TransferOption { option: OptionType::Timeout, value: (dur_nanos(tmo) / 1000000000) as usize }, TransferOption { option: OptionType::TransferSize, value: tsize }]
+}
+/// SPECIFICATION (C14, client side): what one `upload` / `download` does, as a relation between the effects `evs` (datagrams sent from
+/// the request socket, worker started), the reply `cur` it received and its result:
+///  * the first datagram is the request for `name` with mode octet and exactly the four options (blksize, windowsize, timeout, tsize) to `remote`;
+///  * OACK: a worker is started with the OACK's last blksize / windowsize (own values where the OACK is silent), one copy per packet, on `path`
+///    (a download acknowledges the OACK with ACK 0 first); plain ACK (upload only): a worker with the RFC 1350 defaults 512 / 1;
+///  * ERROR, anything else, or no reply: `Err`, and no worker is ever started (no file is created or touched).
+pub open spec fn client_exchange(evs: Seq<SEv>, cur: Option<(PktV, std::net::SocketAddr)>, kind: XferKind, ok: bool,
+                                 remote: std::net::SocketAddr, name: Seq<char>, blk: usize, ws: u16, tmo: std::time::Duration, path: Seq<char>, clean: bool) -> bool {
+    let is_request = |p: PktV| match (kind, p) {
+        (XferKind::Send, PktV::Wrq { filename, mode, options }) => filename == name && mode == "octet"@ && exists|sz: usize| options == client_options(blk, ws, tmo, sz),
+        (XferKind::Receive, PktV::Rrq { filename, mode, options }) => filename == name && mode == "octet"@ && options == client_options(blk, ws, tmo, 0),
+        _ => false,
+    };
+    let no_worker = forall|i: int| 0 <= i < evs.len() ==> !(#[trigger] evs[i] is Spawned);
+    (evs.len() == 0 && !ok)     // failed before anything was sent (socket, file name, file size)
+    || (evs.len() >= 1 && (evs[0] matches SEv::SentTo { pkt, to } && is_request(pkt) && to == remote) && (match cur {
+        Some((PktV::Oack(o), from)) => {
+            let b = opt_or(opt_last(o, OptionType::BlockSize), blk);
+            let w = match opt_last(o, OptionType::Windowsize) { Some(v) => v as u16, None => ws };
+            (!ok && no_worker) || (match kind {
+                XferKind::Send => evs.len() == 2 && (evs[1] matches SEv::Spawned { kind: k, path: p, blk: b2, ws: w2, rep, check, clean: c, .. }
+                    && k == kind && p == path && b2 == b && w2 == w && rep == 1 && !check && c == clean),
+                XferKind::Receive => evs.len() == 3 && evs[1] == (SEv::SentTo { pkt: PktV::Ack(0), to: from })
+                    && (evs[2] matches SEv::Spawned { kind: k, path: p, blk: b2, ws: w2, rep, check, clean: c, .. }
+                        && k == kind && p == path && b2 == b && w2 == w && rep == 1 && !check && c == clean),
+            })
+        },
+        Some((PktV::Ack(_), _)) => (!ok && no_worker) || (kind is Send && evs.len() == 2 && (evs[1] matches SEv::Spawned { kind: k, path: p, blk: b2, ws: w2, rep, check, clean: c, .. }
+                    && k == kind && p == path && b2 == 512 && w2 == 1 && rep == 1 && !check && c == clean)),
+        _ => !ok && evs.len() == 1,
+    }))
+}
+
+/// ASSUMPTION: `&str -> String` conversion (`"octet".into()`) keeps the text
+pub axiom fn axiom_str_into_string_obeys()
+    ensures <&'static str as vstd::std_specs::convert::IntoSpec<String>>::obeys_into_spec();
+pub broadcast axiom fn axiom_str_into_string(s: &'static str)
+    ensures (#[trigger] <&'static str as vstd::std_specs::convert::IntoSpec<String>>::into_spec(s))@ == s@;
+
+#[verifier::external_type_specification]
+#[verifier::external_body]
+pub struct ExOsString(std::ffi::OsString);
+pub uninterp spec fn osstring_str(s: std::ffi::OsString) -> Seq<char>;
+pub assume_specification[ std::path::PathBuf::into_os_string ](p: std::path::PathBuf) -> (r: std::ffi::OsString)
+    ensures osstring_str(r) == pathbuf_str(p);
+/// ASSUMPTION (the model of paths as text): every OS string is valid Unicode
+pub assume_specification[ std::ffi::OsString::into_string ](s: std::ffi::OsString) -> (r: Result<String, std::ffi::OsString>)
+    ensures r is Ok, r->Ok_0@ == osstring_str(s);
+pub assume_specification<T, E, F: FnOnce(E) -> T>[ Result::<T, E>::unwrap_or_else::<F> ](r: Result<T, E>, f: F) -> (res: T)
+    requires r is Err ==> f.requires((r->Err_0,)),
+    ensures r is Ok ==> res == r->Ok_0, r is Err ==> f.ensures((r->Err_0,), res);
+
+/// N7: `Ipv4Addr::UNSPECIFIED` / `Ipv6Addr::UNSPECIFIED` are read through these (the bodies are exactly those constants)
+#[verifier::external_type_specification]
+#[verifier::external_body]
+pub struct ExIpv4Addr(std::net::Ipv4Addr);
+#[verifier::external_type_specification]
+#[verifier::external_body]
+pub struct ExIpv6Addr(std::net::Ipv6Addr);
+#[verifier::external_body]
+pub fn ipv4_unspecified() -> std::net::Ipv4Addr { std::net::Ipv4Addr::UNSPECIFIED }
+#[verifier::external_body]
+pub fn ipv6_unspecified() -> std::net::Ipv6Addr { std::net::Ipv6Addr::UNSPECIFIED }
+pub assume_specification[ std::net::SocketAddr::is_ipv4 ](a: &std::net::SocketAddr) -> bool;
+pub assume_specification<A: std::net::ToSocketAddrs>[ std::net::UdpSocket::connect::<A> ](s: &std::net::UdpSocket, a: A) -> (r: Result<(), std::io::Error>);
+pub assume_specification[ std::ffi::OsStr::to_str ](s: &std::ffi::OsStr) -> (r: Option<&str>)
+    ensures r is Some, r->Some_0@ == osstr_str(s);
+pub assume_specification[ std::fs::File::metadata ](f: &std::fs::File) -> (r: Result<std::fs::Metadata, std::io::Error>);
+pub assume_specification[ std::time::Duration::as_secs ](d: &std::time::Duration) -> (r: u64)
+    ensures r as nat == dur_nanos(*d) / 1000000000;
 /// N5: the crate's `let _ = handle.join();` statements call this (the body is exactly that statement)
 #[verifier::external_body]
 pub fn join_and_ignore<T>(h: std::thread::JoinHandle<T>) { let _ = h.join(); }
@@ -1397,6 +1481,19 @@ pub open spec fn opt_last(s: Seq<TransferOption>, t: OptionType) -> Option<usize
     else { opt_last(s.drop_last(), t) }
 }
 pub open spec fn opt_or(o: Option<usize>, d: usize) -> usize { match o { Some(v) => v, None => d } }
+/// the last value of a kind in a list of honourable options is honourable
+pub proof fn lemma_opt_last_valid(s: Seq<TransferOption>, t: OptionType)
+    requires opts_valid(s),
+    ensures opt_last(s, t) matches Some(v) ==> opt_valid(TransferOption { option: t, value: v }),
+    decreases s.len(),
+{
+    if s.len() > 0 {
+        if s.last().option == t { assert(opt_valid(s[s.len() - 1])); } else {
+            assert forall|i: int| 0 <= i < s.drop_last().len() implies opt_valid(#[trigger] s.drop_last()[i]) by { assert(opt_valid(s[i])); }
+            lemma_opt_last_valid(s.drop_last(), t);
+        }
+    }
+}
 
 pub proof fn lemma_opt_last_step(s: Seq<TransferOption>, i: int, t: OptionType)
     requires 0 <= i < s.len(),
